@@ -10,6 +10,7 @@ import (
 	"bytes"
 	"fmt"
 	"io"
+	"strings"
 	"sync"
 	"time"
 )
@@ -63,6 +64,8 @@ type e2eRelayChain struct {
 	toServer  func(b []byte)   // current sink at the server end
 	gotClient bytes.Buffer     // everything that came out at the client end since the last reset of the buffer
 	gotServer bytes.Buffer
+	fedClient bytes.Buffer // everything fed in at the client end since the last attach
+	fedServer bytes.Buffer
 }
 
 func newE2ERelayChain(k int) *e2eRelayChain {
@@ -106,14 +109,75 @@ func newE2ERelayChain(k int) *e2eRelayChain {
 	return c
 }
 
-func (c *e2eRelayChain) fromClient(b []byte) { c.cin[len(c.cin)-1].ch <- append([]byte(nil), b...) }
-func (c *e2eRelayChain) fromServer(b []byte) { c.sout[0].ch <- append([]byte(nil), b...) }
+func (c *e2eRelayChain) fromClient(b []byte) {
+	c.mu.Lock()
+	c.fedClient.Write(b)
+	c.mu.Unlock()
+	c.cin[len(c.cin)-1].ch <- append([]byte(nil), b...)
+}
+func (c *e2eRelayChain) fromServer(b []byte) {
+	c.mu.Lock()
+	c.fedServer.Write(b)
+	c.mu.Unlock()
+	c.sout[0].ch <- append([]byte(nil), b...)
+}
+
+// e2eChainLines: the complete lines of a stream without the lines a relay rewrites (ACT, CFG, the
+// trigger) and without keep-alive / empty lines.
+func e2eChainLines(b []byte) []string {
+	var res []string
+	for _, l := range bytes.Split(b, []byte("\n")) {
+		s := string(bytes.TrimRight(l, "\r"))
+		if s == "" || strings.HasPrefix(s, "#ACT:") || strings.HasPrefix(s, "#CFG:") || strings.Contains(s, "::TRZSZ") {
+			continue
+		}
+		res = append(res, s)
+	}
+	return res
+}
+
+// conserved: every complete line fed in at one end since the last attach came out at the other end,
+// once, in order (ACT / CFG / trigger lines are rewritten by a relay and are compared elsewhere).
+// It waits up to d for lines still travelling through the chain.
+func (c *e2eRelayChain) conserved(d time.Duration) (up, down bool, detail string) {
+	deadline := time.Now().Add(d)
+	for {
+		c.mu.Lock()
+		fc, gs := e2eChainLines(c.fedClient.Bytes()), e2eChainLines(c.gotServer.Bytes())
+		fs, gc := e2eChainLines(c.fedServer.Bytes()), e2eChainLines(c.gotClient.Bytes())
+		c.mu.Unlock()
+		// the last fed line may be incomplete at either side: compare the common complete part
+		cmp := func(fed, got []string) (bool, string) {
+			if len(got) > len(fed) {
+				return false, fmt.Sprintf("%d lines out for %d lines in", len(got), len(fed))
+			}
+			for i := range got {
+				if got[i] != fed[i] {
+					return false, fmt.Sprintf("line %d differs", i)
+				}
+			}
+			if len(got) < len(fed)-1 {
+				return false, fmt.Sprintf("%d of %d lines came out", len(got), len(fed))
+			}
+			return true, ""
+		}
+		var du, dd string
+		up, du = cmp(fc, gs)
+		down, dd = cmp(fs, gc)
+		if (up && down) || time.Now().After(deadline) {
+			return up, down, strings.TrimSpace(du + " " + dd)
+		}
+		time.Sleep(5 * time.Millisecond)
+	}
+}
 
 func (c *e2eRelayChain) attach(toClient, toServer func(b []byte)) {
 	c.mu.Lock()
 	c.toClient, c.toServer = toClient, toServer
 	c.gotClient.Reset()
 	c.gotServer.Reset()
+	c.fedClient.Reset()
+	c.fedServer.Reset()
 	c.mu.Unlock()
 }
 
@@ -166,12 +230,13 @@ func (c *e2eRelayChain) probe(tag int) (bool, bool) {
 	down := []byte(fmt.Sprintf("probe-down-%d \x1b[0m output line\r\n", tag))
 	c.fromClient(up)
 	c.fromServer(down)
-	okUp := c.waitServer(up, 3*time.Second)
-	okDown := c.waitClient(down, 3*time.Second)
+	okUp := c.waitServer(up, 20*time.Second)
+	okDown := c.waitClient(down, 20*time.Second)
 	time.Sleep(2 * time.Millisecond)
 	c.mu.Lock()
 	defer c.mu.Unlock()
-	return okUp && bytes.Equal(c.gotServer.Bytes(), up), okDown && bytes.Equal(c.gotClient.Bytes(), down)
+	// exactly once; bytes of the transfer before that were still travelling through the chain may surround them
+	return okUp && bytes.Count(c.gotServer.Bytes(), up) == 1, okDown && bytes.Count(c.gotClient.Bytes(), down) == 1
 }
 
 func (c *e2eRelayChain) close() {
